@@ -12,12 +12,20 @@ ASSUMPTIONS = c01.ASSUMPTIONS + [
 
 
 def run(tier, seed):
-    r = c01.explore("C03", PROPS, [("sort", 1.0)], tier, seed, 900, 40000, ASSUMPTIONS,
+    r = c01.explore("C03", PROPS | {"C01"}, [("sort", 0.8), ("boundary_nowin", 0.3)], tier, seed, 900, 40000, ASSUMPTIONS,
                     "For C03 the deciding executions are those whose model result is ordered (ordered_results) or keeps the left order through a right/full join (partially_ordered_results).")
+    # 'take n and take a..b return exactly the rows at those positions': in this sort/take-centred workload a
+    # difference in WHICH rows come back is a C03 matter too; defects of that kind already listed for C01 apply
+    for v in r.violations:
+        v["property"] = "C03"
+    r.borrow_findings("C01")
     if not r.inconclusive and r.coverage.get("ordered_results", 0) < 50:
         r.inconclusive = "too few ordered results judged (%d)" % r.coverage.get("ordered_results", 0)
     return r
 
 
 def replay(case):
-    return relcheck.replay_case(case, PROPS)
+    vs = relcheck.replay_case(case, PROPS | {"C01"})
+    for v in vs:
+        v["property"] = "C03"
+    return vs
